@@ -2,8 +2,8 @@
 # Usage: seed_eval.sh <dir-with-patch.diff> <Cnn> [more checks...]
 # Applies a seeded breaking change to /repo, runs the named checks, and always reverts.
 D=$1; shift
-cd /repo || exit 2
-if ! git diff --quiet; then echo "/repo has uncommitted changes"; exit 2; fi
+R=/tmp/evalrepo; git -C $R checkout -q --detach $(git -C /repo rev-parse HEAD) 2>/dev/null; export VERIF_REPO=$R VERIF_DIR=/tmp/evalverif; mkdir -p $VERIF_DIR; cp /verif/known_findings.json $VERIF_DIR/; cd $R || exit 2
+git checkout -q -- .
 git apply "$D/patch.diff" || { echo "PATCH DOES NOT APPLY"; exit 3; }
 for c in "$@"; do
   /verif/bin/gnoverif check $c > /tmp/seed_eval_$c.log 2>&1; rc=$?
@@ -11,4 +11,4 @@ for c in "$@"; do
 done
 git checkout -- . ; git status --short | grep -v '^??'
 # restore evidence files that the run overwrote
-cd /verif && git checkout -- evidence 2>/dev/null
+
